@@ -64,7 +64,7 @@ def laneOps : List String → String
       let e0 := match r.err with | none => "ok" | some e => rerrStr e
       let (obs, _) := r.run ops
       "err=" ++ e0 ++ " out=" ++ optStr r.out ++ " obs=" ++
-        (if obs.isEmpty then "-" else ";".intercalate (obs.map obsStr))
+        (if obs.isEmpty then "-" else ";".intercalate (obs.map fun x => obsStr x.2))
     | _, _, _, _, _ => "bad-op"
   | _ => "bad-op"
 
@@ -114,9 +114,9 @@ def laneH1Body : List String → String
     | some fr, some cap, some segs, some fin, some reads =>
       let bd := H1Body.new fr (Bufio.new cap { segs := segs, fin := fin })
       let (rs, bd') := bd.runReads reads
-      let lastErr := match rs.getLast? with | some (_, e) => e | none => none
+      let lastErr := lastErr rs
       "n=" ++ encodeNatList (rs.map fun (d, _) => d.length) ++ " err=" ++ ioErrStr lastErr ++
-        " data=" ++ encodeHex (rs.map (·.1)).flatten ++
+        " data=" ++ encodeHex (outBytes rs) ++
         " trailer=" ++ kvStr (match bd'.trailer with | some t => t | none => []) ++
         " rem=" ++ (if lastErr == some .badTrailer then "?" else toString bd'.br.rem.length)
     | _, _, _, _, _ => "bad-op"
@@ -181,10 +181,10 @@ def laneH3Recv : List String → String
       | (.error e, _) => "error:" ++ h3ErrStr (some e)
       | (.ok h, s1) =>
         let (rs, b') := (H3Body.new h s1).runReads reads
-        let lastErr := match rs.getLast? with | some (_, e) => e | none => none
+        let lastErr := lastErr rs
         "status=" ++ toString h.status ++ " hdr=" ++ kvStr h.fields ++
           " n=" ++ encodeNatList (rs.map fun (d, _) => d.length) ++ " err=" ++ h3ErrStr lastErr ++
-          " data=" ++ encodeHex (rs.map (·.1)).flatten ++
+          " data=" ++ encodeHex (outBytes rs) ++
           " trailer=" ++ kvStr (match b'.str.trailer with | some t => t | none => [])
     | _, _, _, _, _ => "bad-op"
   | _ => "bad-op"
